@@ -368,3 +368,49 @@ def inflate_tt(torchtt, t):
 
 
 SCALES_ONE_CORE = [1e-6, 1e-3, 1e3, 1e6]
+
+
+# --------------------------------------------------------------------------------------------------
+# round 3: "the call did not modify its arguments" for several objects at once
+# --------------------------------------------------------------------------------------------------
+
+def unchanged_named(triples):
+    """triples = [(label, snapshot_tt(obj) taken before the call, obj after the call)] -> (ok, message).
+    Compares number of cores, core shapes, recorded R/N, and every core entry (bit for bit)."""
+    bad = []
+    for label, old, obj in triples:
+        if old is None or obj is None:
+            continue
+        ok, msg = unchanged(old, obj)
+        if not ok:
+            bad.append("%s was modified by the call: %s" % (label, msg))
+    return (not bad), "; ".join(bad)
+
+
+class FrozenTT:
+    """Read-only TT-like view on a snapshot_tt() record: the operand AS IT WAS BEFORE the call (cores, R, N, M, is_ttm).
+    Oracles are computed from these views so that a call which overwrites one of its operands cannot pass trivially."""
+
+    def __init__(self, snap):
+        self.cores = snap["cores"]
+        self.R = list(snap["R"])
+        self.N = list(snap["N"])
+        self.is_ttm = snap["M"] is not None
+        self.M = list(snap["M"]) if snap["M"] is not None else None
+
+
+def frozen(snap):
+    return None if snap is None else FrozenTT(snap)
+
+
+def dense_longdouble(cores):
+    """Dense value of a real TT object contracted in numpy extended precision (80-bit long double on x86-64), flattened in
+    the same core-by-core order as `dense` WITHOUT the TT-matrix mode permutation.  Used where the contract is at the level
+    of a few ulps, so that the oracle's own float64 roundoff does not eat the tolerance."""
+    acc = None
+    for c in cores:
+        a = c.detach().cpu().numpy().astype(np.longdouble)
+        mat = a.reshape(a.shape[0], -1)
+        acc = mat if acc is None else acc @ mat
+        acc = acc.reshape(-1, a.shape[-1])
+    return acc.reshape(-1)
